@@ -18,7 +18,17 @@ ASSUMPTIONS = ["single dtype per structure (float64): the flat interface concate
                "no cyclic structures (extraction would not terminate; not claimed by the property)"]
 BUDGET = {"quick": {"worker_timeout": 600, "case_timeout": 60}, "thorough": {"worker_timeout": 2400, "case_timeout": 60}}
 
-SHAPES = [(), (2,), (1, 3), (2, 2), (3,), (1,), (2, 1, 2)]
+SHAPES = [(), (2,), (1, 3), (2, 2), (3,), (1,), (2, 1, 2), (0,), (2, 0)]     # incl. empty tensors (they all share the null data pointer)
+DICT_KINDS = ("D", "OD", "DD", "DS")     # dict, OrderedDict, defaultdict, a dict subclass that also has instance attributes
+CONT_KINDS = ("L", "O", "O2") + DICT_KINDS
+
+
+class DictSub(dict):
+    """a dict subclass carrying an instance attribute (non-tensor): it must be handled as the dict it is"""
+
+    def __init__(self, *a, **k):
+        dict.__init__(self, *a, **k)
+        self.note = "dictsub"
 
 
 class Node:  # attribute-bearing object
@@ -113,7 +123,7 @@ def gen_random_desc(rng, maxc, maxslots):
             j = rng.choice(state["finished"])
             return ["ref", j]
         if can_cont and r < 0.45:
-            kind = rng.choice(["L", "D", "O", "O2"])
+            kind = rng.choice(["L", "D", "O", "O2", "L", "D", "O", "OD", "DD", "DS"])
             idx = state["ncont"]
             state["ncont"] += 1
             n = rng.randrange(0, 4)
@@ -166,8 +176,11 @@ def build(desc, tensors, conts):
         return conts[desc[1]]
     if k == "L":
         obj = [build(c, tensors, conts) for _, c in desc[2]]
-    elif k == "D":
-        obj = {key: build(c, tensors, conts) for key, c in desc[2]}
+    elif k in DICT_KINDS:
+        import collections
+        obj = {"D": dict, "OD": collections.OrderedDict, "DD": lambda: collections.defaultdict(list), "DS": DictSub}[k]()
+        for key, c in desc[2]:
+            obj[key] = build(c, tensors, conts)
     else:
         obj = Node() if k == "O" else Node2()
         for key, c in desc[2]:
@@ -178,7 +191,7 @@ def build(desc, tensors, conts):
 
 def resolve(desc, table):
     """container table idx -> description (to follow refs)"""
-    if desc[0] in ("L", "D", "O", "O2"):
+    if desc[0] in CONT_KINDS:
         table[desc[1]] = desc
         for _, c in desc[2]:
             resolve(c, table)
@@ -192,7 +205,7 @@ def model_slots(desc, table, path=()):
         return [(desc[1], path)]
     if k == "ref":
         return model_slots(table[desc[1]], table, path)
-    if k in ("L", "D", "O", "O2"):
+    if k in CONT_KINDS:
         out = []
         for key, c in desc[2]:
             sub = model_slots(c, table, ("c%d" % desc[1], key))
@@ -241,9 +254,11 @@ def walk_compare(desc, table, orig, new, slots_out, idmap, obs, mech, where="top
             return
         for key, c in desc[2]:
             walk_compare(c, table, orig[key], new[key], slots_out, idmap, obs, mech, "%s[%d]" % (where, key))
-    elif k == "D":
+    elif k in DICT_KINDS:
         if not obs.check(list(new.keys()) == list(orig.keys()), mech + ":dict_keys", "dict keys at %s: %r -> %r" % (where, list(orig), list(new))):
             return
+        if k == "DS":
+            obs.check(vars(new) == vars(orig), mech + ":dictsub_attrs", "instance attributes of the dict subclass at %s changed" % where)
         for key, c in desc[2]:
             walk_compare(c, table, orig[key], new[key], slots_out, idmap, obs, mech, "%s[%r]" % (where, key))
     else:
@@ -268,8 +283,8 @@ def snapshot(desc, table, obj, seen=None):
         return ("tup", id(obj), tuple(("T", id(x), x.detach().reshape(-1).tolist()) if isinstance(x, torch.Tensor) else repr(x) for x in obj))
     if k == "L":
         return ("L", id(obj), len(obj), tuple(snapshot(c, table, obj[key]) for key, c in desc[2]))
-    if k == "D":
-        return ("D", id(obj), tuple(obj.keys()), tuple(snapshot(c, table, obj[key]) for key, c in desc[2]))
+    if k in DICT_KINDS:
+        return (k, type(obj).__name__, id(obj), tuple(obj.keys()), tuple(snapshot(c, table, obj[key]) for key, c in desc[2]))
     return (k, id(obj), tuple(vars(obj).keys()), tuple(snapshot(c, table, getattr(obj, key)) for key, c in desc[2]))
 
 
@@ -289,7 +304,20 @@ def run_case(desc):
         labshape = {0: 1}
         sdesc = {"tensor": ["T", 0], "int": ["leaf", 5], "emptylist": ["L", 0, []], "emptydict": ["D", 0, []],
                  "tupleonly": ["L", 0, [[0, ["tup", [["T", 0], ["leaf", 1]]]]]], "obj_empty": ["O", 0, []]}[desc["spec"]]
-    tensors = {lab: torch.randn(SHAPES[si], dtype=dt) for lab, si in labshape.items()}
+    tensors = {}
+    nshared = 0
+    for lab in sorted(labshape):
+        si = labshape[lab]
+        same = [j for j in tensors if labshape[j] == si]
+        if same and rng.random() < 0.25:
+            # a DISTINCT tensor object sharing memory, shape and strides with an earlier one (detached alias): the Packer must
+            # still treat it as its own tensor
+            tensors[lab] = tensors[rng.choice(same)].detach()
+            nshared += 1
+        else:
+            tensors[lab] = torch.randn(SHAPES[si], dtype=dt)
+    if nshared:
+        obs.count("distinct_tensors_sharing_memory", nshared)
     table = resolve(sdesc, {})
     orig = build(sdesc, tensors, {})
     slots = model_slots(sdesc, table)            # [(label, physical location)]
